@@ -1329,7 +1329,8 @@ def fwd_acceleration(m: Model, d: Data, factorize: bool = False):
 
 def _energy_pos(m: Model, d: Data):
   if m.opt.enableflags & EnableBit.ENERGY:
-    if m.sensor_e_potential == 0:  # not computed by sensor
+    # not computed by sensor (no potential energy sensor, or the sensor stage is disabled)
+    if m.sensor_e_potential == 0 or (m.opt.disableflags & DisableBit.SENSOR):
       sensor.energy_pos(m, d)
   else:
     d.energy.zero_()
@@ -1337,7 +1338,8 @@ def _energy_pos(m: Model, d: Data):
 
 def _energy_vel(m: Model, d: Data):
   if m.opt.enableflags & EnableBit.ENERGY:
-    if m.sensor_e_kinetic == 0:  # not computed by sensor
+    # not computed by sensor (no kinetic energy sensor, or the sensor stage is disabled)
+    if m.sensor_e_kinetic == 0 or (m.opt.disableflags & DisableBit.SENSOR):
       sensor.energy_vel(m, d)
 
 
